@@ -8,7 +8,7 @@ git -C /repo apply "$dir/patch.diff" || { echo "MACHINERY: patch does not apply"
 trap 'git -C /repo apply -R "$dir/patch.diff"; git -C /repo status --porcelain --untracked-files=no' EXIT
 for c in "$@"; do
     start=$(date +%s)
-    ./check "$c" quick > "/tmp/seed_$c.log" 2>&1
+    VFSMC_EVIDENCE_DIR=/dev/shm/seed-evidence ./check "$c" quick > "/tmp/seed_$c.log" 2>&1
     code=$?
     echo "== $c exit=$code ($(( $(date +%s) - start ))s)"
     grep -E "^VIOLATION|signature:" "/tmp/seed_$c.log" | head -6
